@@ -6,7 +6,7 @@ set -u
 V=$(cd "$(dirname "$0")/.." && pwd)
 S=${SEEDREPO:-/tmp/seedrepo}
 patch=$1; shift
-rm -rf "$S" && cp -r /repo "$S" && (cd "$S" && git apply "$patch") || { echo "patch does not apply"; exit 2; }
+rm -rf "$S" && cp -r "${REPO_SRC:-/repo}" "$S" && (cd "$S" && git apply "$patch") || { echo "patch does not apply"; exit 2; }
 rm -rf "$S-evidence-backup" && cp -r "$V/evidence" "$S-evidence-backup"
 restore() {
   (cd "$V" && python3 -c "from vlib.common import build_go, make_overlay; build_go(); from vlib import c14; c14.build_vaccess(); c14.regenerate(make_overlay()); from vlib import regen_re; regen_re.build_regex_tables()" >/dev/null 2>&1)
